@@ -15,6 +15,7 @@ def refuseStr : Refuse → String
   | .noAccount => "noAccount" | .farFutureTarget => "farFutureTarget" | .farFutureSource => "farFutureSource"
   | .farFutureSlot => "farFutureSlot" | .slotZero => "slotZero" | .attMissing => "attMissing"
   | .propMissing => "propMissing" | .slashableAtt => "slashableAtt" | .slashableProp => "slashableProp"
+  | .writeFailed => "writeFailed"
 
 def outStr : Out → String
   | .ok => "ok" | .signed => "signed" | .refused r => "refused:" ++ refuseStr r | .pending => "pending"
@@ -66,6 +67,9 @@ def parseReqs (str : String) : Option (List (Nat × Nat)) :=
     | [a, b] => do let x ← a.toNat?; let y ← b.toNat?; pure (x, y)
     | _ => none
 
+def parseNats (str : String) : Option (List Nat) :=
+  if str == "-" then some [] else (str.splitOn ";").mapM String.toNat?
+
 def stepLine (d : D) (line : String) : D × String :=
   let ws := words line
   match ws with
@@ -108,6 +112,31 @@ def stepLine (d : D) (line : String) : D × String :=
       | "sblk" => match kvNat ws "slot" with
         | some sl => onShare d k (.signBlock sl) fun s => " chk=" ++ chkStr (checkProp s.d.prop sl)
         | none => (d, "bad-op")
+      | "sattf" => match kvNat ws "s", kvNat ws "t" with
+        | some x, some y =>
+          let (d', o) := onShare d k (.signAttFault x y) fun s => " chk=" ++ chkStr (checkAtt s.d.att x y)
+          -- mode=close: the database was closed under the request; the harness reopens it (= restart) inside the op
+          if kv ws "mode" == some "close" then
+            ({ d' with shares := d'.shares.map fun s => (step d'.cfg s .restart).1 }, o)
+          else (d', o)
+        | _, _ => (d, "bad-op")
+      | "sblkf" => match kvNat ws "slot" with
+        | some sl =>
+          let (d', o) := onShare d k (.signBlockFault sl) fun s => " chk=" ++ chkStr (checkProp s.d.prop sl)
+          if kv ws "mode" == some "close" then
+            ({ d' with shares := d'.shares.map fun s => (step d'.cfg s .restart).1 }, o)
+          else (d', o)
+        | none => (d, "bad-op")
+      | "xconc" =>
+        -- concurrent block across shares (oracle-only on the implementation side): every listed request for share k
+        -- is run once, sequentially; the generator only lists requests the stored records refuse, so nothing changes
+        match d.shares[k]?, (kv ws "reqs").bind parseReqs, (kv ws "slots").bind parseNats with
+        | some s0, some reqs, some slots =>
+          let s := { s0 with clock := d.clock }
+          let s1 := reqs.foldl (fun st r => (step d.cfg st (.signAtt r.1 r.2)).1) s
+          let s2 := slots.foldl (fun st sl => (step d.cfg st (.signBlock sl)).1) s1
+          ({ d with shares := setAt d.shares k s2 }, "ok " ++ readback s2)
+        | _, _, _ => (d, "bad-op")
       | "conc" =>
         match d.shares[k]?, (kv ws "reqs").bind parseReqs, kv ws "got" with
         | some s0, some reqs, some gotS =>
